@@ -54,6 +54,7 @@ def run(prog, chk):
         "every info-derived table field of the base builders is forwarded by the variable-font info override (R16.4)",
         "every UFO3 fontinfo attribute is consumed by a builder or is on the reviewed not-in-OpenType list (R16.5)",
         "each computed fallback consults exactly its documented source attributes (R16.6)",
+        "the object returned by getAttrWithFallback (the info's own value or the shared default) is never modified in place (R16.7)",
     ]
     chk.not_decided += ["the field values themselves", "which code points the Unicode database decomposes to ASCII",
                         "that the saved font reloads"]
@@ -65,6 +66,7 @@ def run(prog, chk):
     r163b(prog, chk)
     r164(prog, chk)
     r165(prog, chk, consumed)
+    r167(prog, chk)
 
 
 # ------------------------------------------------------------------------- tables
@@ -696,7 +698,73 @@ def r165(prog, chk, consumed: Set[str]):
     chk.minimum("R16.5", 100)
 
 
+# ----------------------------------------------------------------------------- R16.7
+_MUT = {"append", "extend", "insert", "remove", "pop", "clear", "sort", "reverse", "update", "add", "discard", "setdefault", "popitem"}
+
+
+def r167(prog, chk):
+    """What getAttrWithFallback returns is the info object's own value (or the shared
+    module-level default): it is never modified in place.  Otherwise an explicit
+    value stops winning - the font's own list is altered (and the next compile reads
+    the altered value), or the default of every later font is."""
+    ix = prog.ix
+    n = 0
+    for fi in ix.functions.values():
+        calls = [c for c in A.body_nodes(fi.node) if isinstance(c, ast.Call) and prog.is_call_to(fi, c, "ufo2ft.fontInfoData.getAttrWithFallback")]
+        if not calls:
+            continue
+        direct: Dict[str, List[ast.AST]] = {}
+        for st in A.stmts_of(fi.node):
+            if isinstance(st, ast.Assign) and st.value in calls:
+                for t in st.targets:
+                    if isinstance(t, ast.Name):
+                        direct.setdefault(t.id, []).append(st)
+        # mutation of the call result itself:  getAttrWithFallback(...).append(x)
+        for c in calls:
+            par = ix.parent(c)
+            bad = isinstance(par, ast.Attribute) and par.attr in _MUT and isinstance(ix.parent(par), ast.Call)
+            n += 1
+            chk.ob("R16.7", f"{fi.short}|{A.keytext(fi.node, c)}|result not mutated", not bad, where(fi, c), detail="value used read-only or copied", nontrivial=False,
+                   message=f"{fi.short} mutates the object returned by getAttrWithFallback in place (`{T(ix.parent(par), 60) if bad else ''}`)")
+        for name, sts in direct.items():
+            for node in A.body_nodes(fi.node):
+                use = None
+                what = ""
+                if isinstance(node, ast.Call) and isinstance(node.func, ast.Attribute) and node.func.attr in _MUT and isinstance(node.func.value, ast.Name) and node.func.value.id == name:
+                    use, what = node.func.value, f".{node.func.attr}()"
+                elif isinstance(node, ast.AugAssign) and isinstance(node.target, ast.Name) and node.target.id == name and isinstance(node.op, (ast.Add, ast.BitOr, ast.BitAnd, ast.Sub, ast.BitXor)):
+                    use, what = node.target, "augmented assignment"
+                elif isinstance(node, (ast.Assign, ast.Delete)):
+                    for t in node.targets:
+                        if isinstance(t, ast.Subscript) and isinstance(t.value, ast.Name) and t.value.id == name:
+                            use, what = t.value, "item store"
+                if use is None:
+                    continue
+                if isinstance(node, ast.AugAssign):
+                    # numbers / strings are rebound by += ; only lists / sets are changed in place
+                    scalar = isinstance(node.value, ast.Constant) or (isinstance(node.value, (ast.BinOp, ast.UnaryOp)) and not any(isinstance(x, (ast.List, ast.Set)) for x in ast.walk(node.value)))
+                    if scalar:
+                        continue
+                    defs = prog.cfg(fi).reaching_defs(name, node)
+                else:
+                    defs = prog.reaching(fi, name, use)
+                hit = [d for d in defs if d.binder in sts]
+                if hit:
+                    n += 1
+                    chk.ob("R16.7", f"{fi.short}|{A.keytext(fi.node, node)}", False, where(fi, node),
+                           message=f"{fi.short}: `{T(node, 60)}` modifies in place ({what}) the value getAttrWithFallback returned, i.e. the font info's own "
+                                   f"attribute or the shared default: explicit values are altered for this and every later compile")
+    chk.minimum("R16.7", 100)
+
+
 MUTANTS = [
+    M("fsSelection bits appended to the info's own list (seeded C16b)", "ufo2ft/outlineCompiler.py", "BaseOutlineCompiler.setupTable_OS2",
+      "selection = list(getAttrWithFallback(font.info, 'openTypeOS2Selection'))", "selection = getAttrWithFallback(font.info, 'openTypeOS2Selection')", rule="R16.7"),
+    M("head flags default mutated", "ufo2ft/outlineCompiler.py", "BaseOutlineCompiler.setupTable_head",
+      "head.flags = intListToNum(getAttrWithFallback(font.info, 'openTypeHeadFlags'), 0, 16)",
+      "flags = getAttrWithFallback(font.info, 'openTypeHeadFlags')\nflags += [3]\nhead.flags = intListToNum(flags, 0, 16)", rule="R16.7"),
+    M("copy taken with slice", "ufo2ft/outlineCompiler.py", "BaseOutlineCompiler.setupTable_OS2",
+      "selection = list(getAttrWithFallback(font.info, 'openTypeOS2Selection'))", "selection = getAttrWithFallback(font.info, 'openTypeOS2Selection')[:]", kind="equiv"),
     M("a table builder asks for an attribute that has no fallback", "ufo2ft/outlineCompiler.py", "BaseOutlineCompiler.setupTable_OS2",
       "os2.usBreakChar = 32", "os2.usBreakChar = getAttrWithFallback(font.info, 'openTypeOS2BreakChar')", rule="R16.1"),
     M("vhea metric prefix typo only reachable through the computed name", "ufo2ft/outlineCompiler.py", "BaseOutlineCompiler._setupTable_hhea_or_vhea",
